@@ -370,7 +370,11 @@ func (p *Proxy) handleCONNECT(r responder.Responder, proxyReq *http.Request) err
 		// Content-Length and framing, none of which may leak into the next response on this tunnel.
 		exchangeResponder := responder.NewRawHTTPResponder(tlsConn)
 		if err := p.handleHTTP(exchangeResponder, req); err != nil {
-			slog.Error("Error processing HTTP request in CONNECT tunnel", "host", proxyReq.Host, "error", err)
+			// The response may have been cut short (e.g. the origin sent less than the Content-Length it announced):
+			// client and proxy no longer agree on where the next response starts, so the tunnel ends here, just as
+			// the server closes a plain connection on which it could not finish a response.
+			slog.Error("Error processing HTTP request in CONNECT tunnel, closing it", "host", proxyReq.Host, "error", err)
+			break
 		}
 
 		// The next request starts where this one's body ends. A body the exchange did not read (the answer came
